@@ -7,6 +7,7 @@ import (
 	"crypto/sha256"
 	"encoding/hex"
 	"encoding/json"
+	"fmt"
 	"net/http"
 	"net/http/httptest"
 	"strings"
@@ -512,4 +513,108 @@ func TestVerifC11SendThenClose(t *testing.T) {
 		srv.CloseClientConnections()
 		srv.Close()
 	}
+}
+
+// TestVerifC11Backpressure: an echoing backend (what it sends is caused by what it receives), a client that posts 48 messages
+// of 1 MiB in batches of 8 and whose first poll comes late (2 s): by then both 10-slot queues and the socket buffers are
+// full and a data post is waiting for room.  The poll must still drain the server-side queue, after which everything
+// flows: every message comes back once, in order, unchanged, and every data post is answered.
+func TestVerifC11Backpressure(t *testing.T) {
+	out := verifOpenOut(t)
+	defer out.close()
+	up := websocket.Upgrader{ReadBufferSize: 4096, WriteBufferSize: 4096}
+	srv := httptest.NewServer(http.HandlerFunc(func(w http.ResponseWriter, r *http.Request) {
+		c, err := up.Upgrade(w, r, nil)
+		if err != nil {
+			return
+		}
+		defer c.Close()
+		for {
+			mt, data, err := c.ReadMessage()
+			if err != nil {
+				return
+			}
+			if err := c.WriteMessage(mt, data); err != nil {
+				return
+			}
+		}
+	}))
+	defer srv.CloseClientConnections()
+	shim := newVerifShim(strings.TrimPrefix(srv.URL, "http://"), false)
+	res := map[string]interface{}{"kind": "backpressure", "messages": 48, "message_bytes": 1 << 20, "first_poll_after_ms": 2000}
+	r, id := shim.open("ws://ignored/ws", "1")
+	if r.Status != 200 {
+		res["error"] = fmt.Sprintf("open: %d", r.Status)
+		out.emit(res)
+		return
+	}
+	const total, batch = 48, 8
+	mk := func(k int) string { return fmt.Sprintf("%06d", k) + strings.Repeat(string(rune('a'+k%26)), 1<<20-6) }
+	postDone := make(chan []int, 1)
+	go func() {
+		var sts []int
+		for b := 0; b < total/batch; b++ {
+			var msgs []map[string]interface{}
+			for k := b * batch; k < (b+1)*batch; k++ {
+				msgs = append(msgs, map[string]interface{}{"id": id, "msg": mk(k)})
+			}
+			body, _ := json.Marshal(msgs)
+			cr := shim.call("data", body, map[string]string{"X-Websocket-Shim-Version": "1"}, 40*time.Second)
+			st := cr.Status
+			if cr.Hung {
+				st = -1
+			}
+			sts = append(sts, st)
+			if st != 200 {
+				break
+			}
+		}
+		postDone <- sts
+	}()
+	time.Sleep(2 * time.Second)
+	got, inOrder, intact := 0, true, true
+	var pollStatuses []int
+	deadline := time.Now().Add(40 * time.Second)
+	for got < total && time.Now().Before(deadline) {
+		cr := shim.call("poll", verifSessionBody(id), map[string]string{"X-Websocket-Shim-Version": "1"}, 25*time.Second)
+		st := cr.Status
+		if cr.Hung {
+			st = -1
+		}
+		pollStatuses = append(pollStatuses, st)
+		if st == -1 {
+			break
+		}
+		if st != 200 {
+			continue
+		}
+		ms, err := verifDecodePoll(cr.Body, 1)
+		if err != nil {
+			intact = false
+			break
+		}
+		for _, m := range ms {
+			if string(m.Data) != mk(got) {
+				if len(m.Data) >= 6 && string(m.Data[:6]) != fmt.Sprintf("%06d", got) {
+					inOrder = false
+				} else {
+					intact = false
+				}
+			}
+			got++
+		}
+	}
+	res["echoed_back"], res["in_order"], res["intact"] = got, inOrder, intact
+	if len(pollStatuses) > 12 {
+		pollStatuses = append(pollStatuses[:6], pollStatuses[len(pollStatuses)-6:]...)
+	}
+	res["poll_statuses"] = pollStatuses
+	select {
+	case sts := <-postDone:
+		res["data_post_statuses"] = sts
+	case <-time.After(10 * time.Second):
+		res["data_post_statuses"] = []int{-1}
+	}
+	shim.call("close", verifSessionBody(id), nil, 5*time.Second)
+	out.emit(res)
 }
